@@ -42,6 +42,32 @@ def replay_cases(path):
             for r in map(json.loads, vf.read_lines(path))]
 
 
+def selftest(ctx, lines):
+    """the binding is live: a record in which one failing ending reports another state must be rejected"""
+    bad = None
+    for ln in lines:
+        r = json.loads(ln)
+        if len(r["states"]) >= 2:
+            for e in r["ends"]:
+                if e["kind"] == "trap":
+                    e["res"]["s"] = (e["res"]["s"] + 1) % len(r["states"])
+            bad = json.dumps(r)
+            break
+    if bad is None:
+        raise vf.Infra("selftest: no record to corrupt")
+    sub = vf.Ctx(ctx.pid, ctx.tier, ctx.seed)
+    save = vf.VERIF
+    vf.VERIF = sub.tmp                            # the corrupted line's "replay" stays in scratch space
+    try:
+        n = vf.validate_trace(sub, "AccumulateInv_Trace", [bad], timeout=900, par=1)
+    finally:
+        vf.VERIF = save
+        sub.cleanup()
+    if n == 0:
+        raise vf.Infra("selftest: corrupted record accepted")
+    vf.log("  selftest: corrupted record rejected as expected")
+
+
 def execute_and_judge(ctx, cases):
     binp = vf.build_driver(ctx, "accinv", "./PVM", FILES)
     casep = ctx.tmp + "/cases.ndjson"
@@ -75,6 +101,8 @@ def execute_and_judge(ctx, cases):
                 raise vf.Infra("no %s ending was executed (vacuous run)" % need)
     vf.validate_trace(ctx, "AccumulateInv_Trace", lines, shard=400 if ctx.quick else 2500, par=DEV_PAR or 14, timeout=3000, heap="4g",
                       what="accumulate invocation result is not the context the statement names")
+    if getattr(ctx, "selftest", False) or (not ctx.quick and not ctx.replay):
+        selftest(ctx, lines)
 
 
 def run(ctx):
